@@ -190,9 +190,15 @@ def cases(draw, tier):
             want = {'res': {'op': 'borrow', 'r': 'R', 'amounts': {'a': 1}, 'body': [{'op': 'mark', 'v': 'mine'}, {'op': 'sleep', 'd': 1}]},
                     'lock': {'op': 'lock', 'i': 0, 'body': [{'op': 'mark', 'v': 'mine'}, {'op': 'sleep', 'd': 1}]},
                     'queue': {'op': 'qget', 's': 0}}[what]
+            ih_steps = [hold]
+            iw_steps = [{'op': 'sleep', 'd': draw(st.sampled_from([0.5, 1]))}, want, {'op': 'sleep', 'd': 1}, {'op': 'mark', 'v': 'on'}]
+            if draw(st.booleans()):
+                # clean-up code of the left-over activities: it may fail, and it looks at the clock - of its own simulation
+                ih_steps = [{'op': 'finally', 'body': ih_steps, 'final': [{'op': 'raise', 'eid': 79, 'cls': 'V'}]}]
+                iw_steps = [{'op': 'finally', 'body': iw_steps, 'final': [{'op': 'mark', 'v': 'cleanup'}]}]
             inner = {'start': draw(st.sampled_from([0, 3])), 'roots': [
-                {'name': 'ih', 'steps': [hold]},
-                {'name': 'iw', 'steps': [{'op': 'sleep', 'd': draw(st.sampled_from([0.5, 1]))}, want, {'op': 'sleep', 'd': 1}, {'op': 'mark', 'v': 'on'}]}],
+                {'name': 'ih', 'steps': ih_steps},
+                {'name': 'iw', 'steps': iw_steps}],
                 'objs': {'locks': 1, 'queues': 1, 'resources': [{'kind': 'res', 'name': 'R', 'levels': {'a': 1}}]}}
             if draw(st.integers(0, 2)) == 0:
                 inner['roots'].append({'name': 'ix', 'steps': [{'op': 'sleep', 'd': 2}, {'op': 'raise', 'eid': 78, 'cls': 'K'}]})
@@ -452,8 +458,8 @@ class C15(Check):
             out.nontrivial = pos > 0 or ri > 0
             out.features.add('inner_failed' if want_err else 'inner_ok')
             # nothing of the nested simulation runs once its run() has returned
-            for inner_it, seen in getattr(it_o, 'nested_objs', ()):
-                late = [e for e in inner_it.log[seen:] if e[3] in ('ok', 'got', 'enter', 'mark', 'end', 'start', 'request', 'get_begin')]
+            for inner_log, seen in getattr(it_o, 'nested_objs', ()):
+                late = [e for e in inner_log[seen:] if e[3] in ('ok', 'got', 'enter', 'mark', 'end', 'start', 'request', 'get_begin')]
                 if late:
                     out.fail('nesting', 'inner_activity_ran_after_its_simulation', 'after the nested run() had returned, %s of the nested '
                              'simulation logged %r at outer time %r' % (late[0][1], late[0][3], late[0][4]))
